@@ -35,9 +35,6 @@ def main():
             a = sh("git -C %s apply %s/patch.diff" % (WT, d))
             how = "git apply"
             if a.returncode:
-                a = sh("cd %s && patch -p1 -s -F3 --no-backup-if-mismatch < %s/patch.diff" % (WT, d))
-                how = "patch -F3"
-            if a.returncode:
                 sh("git -C %s checkout -- . && git -C %s clean -fdq" % (WT, WT))
                 results[sid] = {"applies": False, "note": "no longer applies to the repaired tree"}
                 print(sid, "DOES NOT APPLY")
@@ -60,7 +57,10 @@ def main():
             sys.stdout.flush()
     finally:
         sh("git -C /repo worktree remove --force %s" % WT)
-    json.dump(results, open(os.path.join(VERIF, "seeded", "RESULTS.json"), "w"), indent=1)
+    rp = os.path.join(VERIF, "seeded", "RESULTS.json")
+    allres = json.load(open(rp)) if os.path.exists(rp) else {}
+    allres.update(results)
+    json.dump(allres, open(rp, "w"), indent=1, sort_keys=True)
     return 0
 
 
